@@ -1,4 +1,4 @@
-package simtest
+package c02
 
 import (
 	"context"
@@ -15,6 +15,7 @@ import (
 
 	"verif/sim"
 	"verif/simrt"
+	. "verif/simtest/env"
 )
 
 // C02 — a scheduled job runs exactly once, whoever starts it.
@@ -138,14 +139,14 @@ func c02Exec(plan any, sched *simrt.Tape) *sim.Outcome {
 				err = svc.SchedulePeriodicJob(jctx, "c02", job.Name, func(_ context.Context) (time.Time, error) {
 					now := simrt.Now()
 					next := (now/job.Period + 1) * job.Period
-					return simEpoch.Add(next), nil
+					return SimEpoch.Add(next), nil
 				}, fn)
 			} else {
 				inst.at = job.At
 				if inst.schedAt > 0 { // re-scheduled instance: 10s after now
 					inst.at = inst.schedAt + 10*time.Second
 				}
-				err = svc.ScheduleJob(jctx, "c02", job.Name, simEpoch.Add(inst.at), fn)
+				err = svc.ScheduleJob(jctx, "c02", job.Name, SimEpoch.Add(inst.at), fn)
 			}
 			inst.schedRetStep = simrt.Step()
 			if err == nil {
@@ -313,7 +314,7 @@ func c02Oracle(pl *c02Plan, insts []*c02Inst, ops []*c02OpRec, horizon time.Dura
 		if in.periodic {
 			for i := 1; i < len(in.invs); i++ {
 				if !in.invs[i-1].done || in.invs[i].startStep < in.invs[i-1].endStep {
-					return viol("C02/periodic-overlap", "periodic job %s: invocation %d started (step %d) before invocation %d ended", in.name, i, in.invs[i].startStep, i-1)
+					return Viol("C02/periodic-overlap", "periodic job %s: invocation %d started (step %d) before invocation %d ended", in.name, i, in.invs[i].startStep, i-1)
 				}
 			}
 			P := pl.Jobs[in.job].Period
@@ -332,7 +333,7 @@ func c02Oracle(pl *c02Plan, insts []*c02Inst, ops []*c02OpRec, horizon time.Dura
 					}
 				}
 				if !ok {
-					return viol("C02/periodic-missed-tick", "periodic job %s: no invocation at or across tick %v (invocations %s)", in.name, tk, c02Invs(in))
+					return Viol("C02/periodic-missed-tick", "periodic job %s: no invocation at or across tick %v (invocations %s)", in.name, tk, c02Invs(in))
 				}
 				out.Probes["periodic-tick-checked"]++
 			}
@@ -345,7 +346,7 @@ func c02Oracle(pl *c02Plan, insts []*c02Inst, ops []*c02OpRec, horizon time.Dura
 						}
 					}
 					if !found {
-						return viol("C02/run-success-but-not-run", "periodic job %s: RunJob returned nil at %v but no invocation followed (invocations %s)", in.name, o.callT, c02Invs(in))
+						return Viol("C02/run-success-but-not-run", "periodic job %s: RunJob returned nil at %v but no invocation followed (invocations %s)", in.name, o.callT, c02Invs(in))
 					}
 					out.Probes["periodic-early-run"]++
 				}
@@ -354,7 +355,7 @@ func c02Oracle(pl *c02Plan, insts []*c02Inst, ops []*c02OpRec, horizon time.Dura
 		}
 		// one-off
 		if n > 1 {
-			return viol("C02/ran-twice", "one-off job %s (time %v) ran %d times: %s", in.name, in.at, n, c02Invs(in))
+			return Viol("C02/ran-twice", "one-off job %s (time %v) ran %d times: %s", in.name, in.at, n, c02Invs(in))
 		}
 		if runOK {
 			out.Probes["run-now-success"]++
@@ -364,22 +365,22 @@ func c02Oracle(pl *c02Plan, insts []*c02Inst, ops []*c02OpRec, horizon time.Dura
 			// obligations void: 0 or 1
 		case runOK:
 			if n != 1 {
-				return viol("C02/run-success-but-not-run", "one-off job %s (time %v): RunJob returned nil but the job ran %d times", in.name, in.at, n)
+				return Viol("C02/run-success-but-not-run", "one-off job %s (time %v): RunJob returned nil but the job ran %d times", in.name, in.at, n)
 			}
 		case cancelClearlyBefore && !runIf && !runMaybe:
 			if n != 0 {
-				return viol("C02/cancelled-job-ran", "one-off job %s (time %v) was cancelled clearly before its time but ran: %s", in.name, in.at, c02Invs(in))
+				return Viol("C02/cancelled-job-ran", "one-off job %s (time %v) was cancelled clearly before its time but ran: %s", in.name, in.at, c02Invs(in))
 			}
 			out.Probes["cancel-clearly-before"]++
 		case cancelAttempt:
 			// concurrent with a start: 0 or 1
 		default:
 			if n != 1 {
-				return viol("C02/job-dropped", "one-off job %s (time %v) was never cancelled but ran %d times by the horizon", in.name, in.at, n)
+				return Viol("C02/job-dropped", "one-off job %s (time %v) was never cancelled but ran %d times by the horizon", in.name, in.at, n)
 			}
 		}
 		if n == 1 && !in.invs[0].done {
-			return viol("C02/job-never-finished", "job %s still running at horizon", in.name)
+			return Viol("C02/job-never-finished", "job %s still running at horizon", in.name)
 		}
 	}
 	// a finished job's name can be scheduled again
@@ -403,7 +404,7 @@ func c02Oracle(pl *c02Plan, insts []*c02Inst, ops []*c02OpRec, horizon time.Dura
 		if free {
 			out.Probes["resched-after-finish"]++
 			if o.err != nil {
-				return viol("C02/name-not-reusable", "ScheduleJob(%s) after the previous instance finished returned %v", name, o.err)
+				return Viol("C02/name-not-reusable", "ScheduleJob(%s) after the previous instance finished returned %v", name, o.err)
 			}
 		}
 	}
